@@ -3,6 +3,8 @@ package interp
 import (
 	"go/types"
 	"math"
+
+	"golang.org/x/tools/go/ssa"
 )
 
 func nanF() float64          { return math.NaN() }
@@ -16,4 +18,13 @@ type ReflectV struct {
 	C     *Cell // addressable storage (may be nil for non-addressable)
 	V     Value
 	Valid bool
+}
+
+// findMethod returns the exported method name of T (nil if T has none).
+func (in *Interp) findMethod(T types.Type, name string) *ssa.Function {
+	sel := in.Prog.MethodSets.MethodSet(T).Lookup(nil, name)
+	if sel == nil {
+		return nil
+	}
+	return in.Prog.MethodValue(sel)
 }
